@@ -35,7 +35,7 @@ const (
 	traceNO       = 6 // owner ids per chain (dense, in order of first use)
 	traceNL       = 4
 	ringKey       = "partitions"
-	eventsPerFile = 20000
+	eventsPerFile = 40000
 )
 
 type partJ struct {
@@ -604,6 +604,54 @@ func scenarios(cfg [2][3]int) []scenario {
 	return out
 }
 
+func deletionMatrix(full bool) [][]step {
+	var out [][]step
+	sl := step{Kind: "sleep"}
+	for _, d := range []int{1, 2} { // DeleteInactivePartitionAfterDuration of every lifecycler
+		cfg := [3]int{1, 0, d}
+		s1 := step{Kind: "start", L: 1, P: 1, B: true, Cfg: cfg}
+		s2 := step{Kind: "start", L: 2, P: 2, B: true, Cfg: cfg}
+		s3 := step{Kind: "start", L: 3, P: 1, B: true, Cfg: cfg}
+		leads := []int{1}
+		if full {
+			leads = []int{0, 1}
+		}
+		for _, lead := range leads { // seconds the first owner is registered before the partition goes inactive
+			head := []step{s1, s2}
+			for k := 0; k < lead; k++ {
+				head = append(head, sl)
+			}
+			head = append(head, step{Kind: "ed", P: 1, S: "I"})
+			// owner kept: never deleted
+			kept := append([]step{}, head...)
+			for k := 0; k < d+2; k++ {
+				kept = append(kept, sl)
+			}
+			out = append(out, kept)
+			for a := 0; a <= d+1; a++ { // seconds between the removal of the owner and the re-registration
+				base := append(append([]step{}, head...), step{Kind: "stop", L: 1, B: true})
+				for k := 0; k < a; k++ {
+					base = append(base, sl)
+				}
+				out = append(out, append([]step{}, base...)) // removed, never re-registered: deleted once the delay passed
+				for _, re := range []step{s1, s3} {
+					for b := 0; b <= d+1; b++ { // seconds the new registration exists before the drain
+						sc := append(append([]step{}, base...), re)
+						for k := 0; k < b; k++ {
+							sc = append(sc, sl)
+						}
+						out = append(out, sc)
+						if full || b <= 1 {
+							out = append(out, append(append([]step{}, sc...), step{Kind: "stop", L: re.L, B: true})) // ... and removed again
+						}
+					}
+				}
+			}
+		}
+	}
+	return out
+}
+
 func prefixes(cfg [2][3]int) [][]step {
 	s1 := step{Kind: "start", L: 1, P: 1, B: true, Cfg: cfg[0]}
 	s21 := step{Kind: "start", L: 2, P: 1, B: true, Cfg: cfg[1]}
@@ -690,6 +738,21 @@ func recordTrace(t *testing.T, res *abs.Result) {
 				}
 			}
 		}
+	}
+
+	// (a') the deletion matrix: another lifecycler's clean-up tick against a partition that has been inactive for
+	//      less than / exactly / more than the delay, crossed with its owners: registered before it went inactive and
+	//      kept; removed; removed and (re-)registered - by the same instance or a new one - a varying number of seconds
+	//      ago; re-registered and removed again
+	for _, sched := range deletionMatrix(os.Getenv("VERIF_ALPHA") != "small") {
+		if rec.fatal != "" {
+			break
+		}
+		names := []string{}
+		for _, s := range sched {
+			names = append(names, s.String())
+		}
+		count(runChain(t, rec, false, map[string]any{"kind": "deletion-matrix", "schedule": names}, sched, false, nil))
 	}
 
 	// (b) seeded long schedules: 1..4 lifecyclers, 2..4 partitions, with and without multi-partition owner ids
